@@ -3,7 +3,7 @@ CONSTANTS
   OpFacts <- SoundFacts
   Sizes <- SizesSmall
   ConstGas <- Const2
-  OtherGas <- Other1
+  OtherGas <- Other2
   Gives <- Gives2
   GasLimit = 6000
   MaxOps = 4
